@@ -349,10 +349,13 @@ def wf_specs(draw, tier):
         # band paths with similar q-spacing depend on the reciprocal metric: prefer a strongly non-orthogonal cell there
         spec["proto"] = draw(st.sampled_from(["shear", "shear", "shear", "tric", "nacl_f", "cscl"]))
         spec["band_const"] = draw(st.sampled_from([True, True, False]))
+        spec["band_labels"] = draw(st.sampled_from(["none", "two_paths", "connected_then_jump", "jump_then_connected"]))
     if spec["mode"] == "disp":
         # plus-minus settings matter where +d and -d are not symmetry-equivalent: low-symmetry prototypes
         spec["proto"] = draw(st.sampled_from(["tric", "shear", "tric", "nacl_f"]))
         spec["pm"] = draw(st.sampled_from(["false", "false", "true", "auto"]))
+        # VASP route: MAGMOM file written next to SPOSCAR must list the moments in the atom order of SPOSCAR
+        spec["magmom"] = draw(st.sampled_from(["none", "Na Cl", "Cl Na", "Cl Na Cl", "Na Cl Na"]))
     spec.update(combo)
     if spec["nac"]:
         spec["load_pa"] = None  # Born charges recorded for one primitive cell cannot be combined with another (documented error)
@@ -510,12 +513,61 @@ def _run_disp(spec, td, dA, cellfile, pa):
     return Out(ok=True, nontrivial=spec["pm"] != "auto" or not spec["diag"], classes=classes)
 
 
+def _run_magmom(spec, td, classes):
+    """'phonopy -d' with MAGMOM: the MAGMOM file lists one moment per atom of SPOSCAR, in SPOSCAR's order. Oracle: every SPOSCAR atom is
+    traced back to its unit-cell atom by its position; POSCAR and SPOSCAR are read by this function's own few lines."""
+    syms = spec["magmom"].split()
+    L = np.array([[4.0, 0.2, 0.0], [0.1, 4.3, 0.3], [0.2, 0.0, 4.9]])
+    upos = np.array([[0, 0, 0], [0.5, 0.47, 0.53], [0.2, 0.8, 0.3]])[: len(syms)]
+    moms = [1.0, -1.0, 0.5][: len(syms)]
+    dim = spec["dim"]
+    poscar = "gen\n1.0\n" + "\n".join(" ".join("%.16f" % x for x in r) for r in L) + "\n" + " ".join(syms) + "\n" + " ".join("1" for _ in syms) + \
+        "\nDirect\n" + "\n".join(" ".join("%.16f" % x for x in r) for r in upos) + "\n"
+    mtxt = " ".join("%g" % m for m in moms)
+    routes = {"option": (["-d", "--dim"] + [str(x) for x in dim] + ["-c", "POSCAR", "--magmom", mtxt], None),
+              "tag": (["p.conf"], ["CREATE_DISPLACEMENTS = .TRUE.", "DIM = " + " ".join(str(x) for x in dim), "MAGMOM = " + mtxt])}
+    for name, (argv, conf) in routes.items():
+        d = os.path.join(td, "magmom_" + name)
+        os.makedirs(d)
+        open(os.path.join(d, "POSCAR"), "w").write(poscar)
+        if conf:
+            open(os.path.join(d, "p.conf"), "w").write("\n".join(conf) + "\n")
+        r = cli("phonopy", argv, d)
+        if r.returncode != 0 or not os.path.exists(os.path.join(d, "SPOSCAR")) or not os.path.exists(os.path.join(d, "MAGMOM")):
+            return Out(ok=False, classes=classes, msg="phonopy %s with moments failed or wrote no SPOSCAR/MAGMOM: rc %s\n%s" % (" ".join(argv), r.returncode, (r.stdout + r.stderr)[-600:]))
+        lines = open(os.path.join(d, "SPOSCAR")).read().split("\n")
+        counts = [int(x) for x in lines[6].split()]
+        spos = np.array([[float(x) for x in ln.split()[:3]] for ln in lines[8:8 + sum(counts)]])
+        ssyms = [sy for sy, c in zip(lines[5].split(), counts) for _ in range(c)]
+        want = []
+        for x, sy in zip(spos, ssyms):
+            xu = x * np.array(dim, dtype=float)
+            dd = xu[None, :] - upos
+            dd -= np.rint(dd)
+            k = int(np.argmin(np.abs(dd).max(axis=1)))
+            if np.abs(dd[k]).max() > 1e-8 or syms[k] != sy:
+                return Out(ok=False, classes=classes, msg="SPOSCAR atom %s %s is not an image of a unit-cell atom of that species" % (sy, x.tolist()))
+            want.append(moms[k])
+        txt = open(os.path.join(d, "MAGMOM")).read()
+        got = [float(x) for x in txt.split("=")[1].split()]
+        if len(got) != len(want) or np.abs(np.array(got) - np.array(want)).max() > 1e-12:
+            return Out(ok=False, classes=classes, msg="MAGMOM file (%s route, POSCAR species line %r, moments %s, dim %s) lists %s; the atoms of SPOSCAR carry %s"
+                       % (name, spec["magmom"], mtxt, dim, got, want))
+    return None
+
+
 def _run_workflow(spec, td):
     dA = os.path.join(td, "A")
     os.makedirs(dA)
     ph0, cellfile, pa, spec = make_inputs(spec, dA)
     if spec["mode"] == "disp":
-        return _run_disp(spec, td, dA, cellfile, pa)
+        out = _run_disp(spec, td, dA, cellfile, pa)
+        if out["ok"] and spec.get("magmom", "none") != "none" and spec["calc"] == "vasp":
+            bad = _run_magmom(spec, td, out["classes"] + ["magmom:" + spec["magmom"]])
+            if bad is not None:
+                return bad
+            out["classes"] = out["classes"] + ["magmom:" + spec["magmom"]]
+        return out
     ref = lib_reference(spec, dA, cellfile, pa)
     use_load = spec["cmd"] == "phonopy-load"
     mode = spec["mode"]
@@ -636,6 +688,34 @@ def _run_workflow(spec, td):
     if np.abs(f1 - f2).max() > 1e-5 * max(1.0, np.abs(f1).max()):
         return Out(ok=False, classes=classes, msg="phonopy.yaml reloads to a different calculation: frequencies differ by %.3e (calculator %r vs %r, nac factor %r vs %r)"
                    % (np.abs(f1 - f2).max(), ref.calculator, p2.calculator, (ref.nac_params or {}).get("factor"), (p2.nac_params or {}).get("factor")))
+    if mode == "band" and spec.get("band_labels", "none") != "none":
+        # labelled paths, also disconnected ones: every segment carries the labels of its own two end points in band.yaml and band.hdf5
+        variants = {"two_paths": ("0 0 0 1/2 0 1/2, 1/2 1/2 1/2 0 0 1/2", "G X R Z", [["G", "X"], ["R", "Z"]]),
+                    "connected_then_jump": ("0 0 0 1/2 0 1/2 1/2 1/2 1/2, 0 0 1/2 0 0 0", "G X R Z G", [["G", "X"], ["X", "R"], ["Z", "G"]]),
+                    "jump_then_connected": ("0 0 0 1/2 0 1/2, 1/2 1/2 1/2 0 0 1/2 0 0 0", "G X R Z G", [["G", "X"], ["R", "Z"], ["Z", "G"]])}
+        bpath, blab, want_lab = variants[spec["band_labels"]]
+        for fmt in ("yaml", "hdf5"):
+            dl = os.path.join(td, "labels_" + fmt)
+            os.makedirs(dl)
+            for f in os.listdir(dA):
+                if f in (cellfile, "FORCE_SETS", "BORN", "phonopy_disp.yaml"):
+                    shutil.copy(os.path.join(dA, f), dl)
+            argvL = yamlin + base + ["--band", bpath, "--band-labels", blab, "--band-points", "3"] + (["--hdf5"] if fmt == "hdf5" else [])
+            rl = cli(spec["cmd"], argvL, dl)
+            if rl.returncode != 0:
+                return Out(ok=False, classes=classes, msg="%s %s failed: rc %s\n%s" % (spec["cmd"], " ".join(argvL), rl.returncode, (rl.stdout + rl.stderr)[-800:]))
+            if fmt == "yaml":
+                got_lab = [[str(x).strip("$") for x in pair] for pair in _yaml(os.path.join(dl, "band.yaml")).get("labels", [])]
+            else:
+                import h5py
+
+                with h5py.File(os.path.join(dl, "band.hdf5"), "r") as h:
+                    got_lab = [[(x.decode() if isinstance(x, bytes) else str(x)).strip("$") for x in pair] for pair in h["label"][:]]
+            norm = [[x.replace("\\Gamma", "G").replace("\\mathrm{", "").replace("}", "") for x in pair] for pair in got_lab]
+            if norm != want_lab:
+                return Out(ok=False, classes=classes + ["band_labels:" + spec["band_labels"]],
+                           msg="band.%s: labels of the path segments %s, the paths '%s' with labels '%s' have %s" % (fmt, got_lab, bpath, blab, want_lab))
+        classes = classes + ["band_labels:" + spec["band_labels"]]
     if mode == "writefc_readfc":
         r3 = cli(spec["cmd"], yamlin + [a for a in base if a not in ("traditional", "--fc-calc")] + ["--readfc", "--qpoints", "0.13 0.27 0.41"], dA)
         if r3.returncode != 0:
